@@ -231,6 +231,16 @@ class StmtExec(Exec):
             out.append((conds, val, exc))
         # apply writebacks on the caller state (same fresh values on every alternative)
         for tgt, nv in writebacks:
+            if isinstance(tgt, ast.Call) and isinstance(tgt.func, ast.Attribute) and tgt.func.attr == "get" and len(tgt.args) == 2 \
+                    and isinstance(tgt.args[1], ast.Call) and not tgt.args[1].args and not tgt.args[1].keywords:
+                # f(d.get(k, fresh())): the callee worked on the stored value if the key is present, else on a temporary
+                d = lift(self.ev(tgt.func.value, st))
+                if not (isinstance(d, V) and isinstance(d.ty, DictT)):
+                    raise Unsupported("write-back through .get() of %r" % (d,))
+                k = self.evz(tgt.args[0], st, d.ty.key)
+                has, setf = d.ty.fn("has"), d.ty.fn("set")
+                self.assign_to(tgt.func.value, V(d.ty, z3.If(has(d.t, k), setf(d.t, k, coerce(nv, d.ty.val).t), d.t)), st)
+                continue
             self.assign_to(tgt, nv, st)
         return out
 
@@ -601,6 +611,9 @@ class StmtExec(Exec):
         for name in _ar | self.cursor_roots(_ar, st):
             if name in st.env:
                 st.env["entry:" + name] = st.env[name]
+        if not is_range and isinstance(st.env[g_it], V) and (st.env[g_it].ty is STR or isinstance(st.env[g_it].ty, SeqT)):
+            # ghost: the part of the sequence already consumed (invariants may speak about it as _done<k>)
+            st.env["_done%d" % k] = st.env["_done"] = V(st.env[g_it].ty, z3.Empty(st.env[g_it].ty.sort()))
         self.check_inv("inv_entry", spec, st, s.lineno, k)
         # arbitrary iteration
         h = st.copy()
@@ -658,6 +671,11 @@ class StmtExec(Exec):
                 it.assume(full_v.ty.fn("has")(full_v.t, full_v.ty.k(rest_d.t)))
             tl_v = tl.d if isinstance(tl, DictItems) else tl
             it.env[g_rest] = it.env["_rest"] = tl_v
+            dn = it.env.get("_done%d" % k)
+            if isinstance(dn, V) and isinstance(dn.ty, SeqT) and isinstance(hd, V) and hd.ty is dn.ty.elem:
+                it.env["_done%d" % k] = it.env["_done"] = V(dn.ty, z3.Concat(dn.t, z3.Unit(hd.t)))
+            elif isinstance(dn, V) and dn.ty is STR and isinstance(hd, V) and hd.ty is STR:
+                it.env["_done%d" % k] = it.env["_done"] = V(STR, z3.Concat(dn.t, hd.t))
             if idx_start is not None:
                 item = PyTup([V(INT, idx_start + i_sym.t), hd])
         it.env[g_i] = it.env["_i"] = V(INT, i_sym.t + 1)
